@@ -11,9 +11,9 @@ import types
 
 from ..framework import Check, Violation
 from ..xplore import explore, run_once
-from .. import env, harness, memfs
+from .. import env, fakeserver, harness, memfs
 from ..simdev.base import World, Device, SW, DropLinkBase, DeviceFault
-from .c09 import FakeSocketServerModule, DetRandom, PIN_FILE
+from .c09 import DetRandom, PIN_FILE, PIN_DIR
 
 FILE_STATES = {
     "absent": None, "valid": b"abcd1234", "digits": b"12345678", "short": b"abc1234",
@@ -346,27 +346,17 @@ class C10(Check):
             fs.on_crash = lambda: setattr(w, "dead", True)
             environ = {"PIN": DEFAULT_PIN.decode()} if case["default"] else {}
             lifetimes = []
-            _unbind_random = lambda: None    # noqa: E731
-            saved = (LPIN.os, LPIN.__dict__.get("open"), None, RUN.configure_logging,
-                     SRV.socketserver, manager_ledger.os, manager_sgx.os)
+            seams = None
             try:
                 for life in range(self.lifetimes):
                     harness.bind_world(w)
                     record = []
-                    LPIN.os = memfs.FakeOs(fs)
-                    LPIN.open = fs.open
                     rnd = DetRandom()
                     rnd.n = life * 5
-                    _unbind_random()
-                    _unbind_random = env.bind_random(LPIN, rnd)
-                    RUN.configure_logging = lambda p: None
-                    SRV.socketserver = FakeSocketServerModule(record)
-                    fake_os = memfs.FakeOs(fs, environ)
-                    manager_ledger.os = fake_os
-                    manager_sgx.os = fake_os
-                    for _m in (manager_ledger, manager_sgx):
-                        _m.open = fs.open
-                        _m.shutil = memfs.FakeShutil(fs)
+                    if seams is not None:
+                        seams.restore()
+                    seams = fakeserver.ManagerSeams(fs, record, rnd, environ, PIN_DIR)
+                    seams.install()
                     options = types.SimpleNamespace(
                         pin_file=PIN_FILE, force_pin_change=case["force"] and life == 0,
                         logconfigfilepath="x", version_one=False, host="h", port=1,
@@ -412,13 +402,8 @@ class C10(Check):
                     if dev.wiped:
                         break
             finally:
-                _unbind_random()
-                (LPIN.os, op, _ignored, RUN.configure_logging, SRV.socketserver,
-                 manager_ledger.os, manager_sgx.os) = saved
-                if op is None:
-                    LPIN.__dict__.pop("open", None)
-                else:
-                    LPIN.open = op
+                if seams is not None:
+                    seams.restore()
             return dev, fs, lifetimes
         return run
 
@@ -455,7 +440,6 @@ class C10(Check):
 
             def on_serve(server):
                 out["served"] = True
-                proto = server.protocol
                 req = {"command": "getPubKey", "version": 1 if case["v1"] else 5,
                        "keyId": "m/44'/137'/0'/0/0"}
                 for step in range(4):
@@ -465,7 +449,7 @@ class C10(Check):
                         w.inject = lambda world, i, apdu: ("read",) if i == base else None
                     else:
                         w.inject = None
-                    o = harness.handle_line(proto, json.dumps(req).encode())
+                    o = fakeserver.serve_line(server, json.dumps(req).encode())
                     if step == 0:
                         dev.power_cycle()          # the device comes back locked, in the bootloader
                     out["replies"].append((o.reply, o.exc))
@@ -473,23 +457,11 @@ class C10(Check):
                         out["stopped"] = step
                         break
             record.on_serve = on_serve
-            _unbind_random = lambda: None    # noqa: E731
-            saved = (LPIN.os, LPIN.__dict__.get("open"), None, RUN.configure_logging,
-                     SRV.socketserver, manager_ledger.os, manager_sgx.os)
+            seams = fakeserver.ManagerSeams(fs, record, DetRandom(), {"PIN": DEFAULT_PIN.decode()}, PIN_DIR)
             crashed = None
             try:
                 harness.bind_world(w)
-                LPIN.os = memfs.FakeOs(fs)
-                LPIN.open = fs.open
-                _unbind_random = env.bind_random(LPIN, DetRandom())
-                RUN.configure_logging = lambda p: None
-                SRV.socketserver = FakeSocketServerModule(record)
-                fake_os = memfs.FakeOs(fs, {"PIN": DEFAULT_PIN.decode()})
-                manager_ledger.os = fake_os
-                manager_sgx.os = fake_os
-                for _m in (manager_ledger, manager_sgx):
-                    _m.open = fs.open
-                    _m.shutil = memfs.FakeShutil(fs)
+                seams.install()
                 options = types.SimpleNamespace(
                     pin_file=PIN_FILE, force_pin_change=case["force"], logconfigfilepath="x",
                     version_one=case["v1"], host="h", port=1, io_debug=False, tcpconn_host="h",
@@ -506,13 +478,7 @@ class C10(Check):
                 except BaseException as e:   # noqa
                     crashed = type(e).__name__
             finally:
-                _unbind_random()
-                (LPIN.os, op, _ignored, RUN.configure_logging, SRV.socketserver,
-                 manager_ledger.os, manager_sgx.os) = saved
-                if op is None:
-                    LPIN.__dict__.pop("open", None)
-                else:
-                    LPIN.open = op
+                seams.restore()
             return dev, fs, out, crashed
         return run
 
